@@ -69,6 +69,9 @@ type WDesc struct {
 	Mask6  int
 	Codes  []int
 	V6     bool // dual: prefer_ipv6
+	Lazy   int  // cache: lazy_cache_ttl
+
+	built any // the plugin once constructed
 }
 
 func v4List(xs []uint32) string { return hx.NList(xs) }
@@ -128,6 +131,8 @@ func (d XDesc) Coq() string {
 		return fmt.Sprintf("(DForward %d)", d.Up)
 	case "fallback":
 		return fmt.Sprintf("(DFallback %d %d %s)", d.Prim, d.Sec, hx.Bool(d.Standby))
+	case "rendezvous":
+		return "DRendezvous"
 	}
 	return "DDropResp"
 }
@@ -135,7 +140,7 @@ func (d XDesc) Coq() string {
 func (d WDesc) Coq(idx int) string {
 	switch d.Kind {
 	case "cache":
-		return fmt.Sprintf("(DCache %d)", idx)
+		return fmt.Sprintf("(DCache %d %d)", idx, d.Lazy)
 	case "redirect":
 		it := make([]string, len(d.Rules))
 		for i, r := range d.Rules {
@@ -218,6 +223,9 @@ func ProgCoq(ss []TSeq) string {
 
 type Built struct {
 	Entry   *sequence.Sequence
+	Caches  []*cache.Cache
+	Stubs   []*StubUpstream
+	Meet    *Rendezvous
 	closers []func()
 	Text    [][]sequence.RuleArgs
 }
@@ -246,7 +254,7 @@ func (z ZoneRR) text() string {
 	return fmt.Sprintf("%s %d IN TXT \"%s\"", z.Owner, z.TTL, z.Txt)
 }
 
-func buildX(d XDesc, rec *Recorder, scripts [][]Template) (any, error) {
+func buildX(b *Built, d XDesc, rec *Recorder, scripts [][]Template) (any, error) {
 	switch d.Kind {
 	case "hosts":
 		var entries []string
@@ -270,7 +278,14 @@ func buildX(d XDesc, rec *Recorder, scripts [][]Template) (any, error) {
 			ts = scripts[d.Up]
 		}
 		up := &StubUpstream{Idx: d.Up, Rec: rec, Script: ts}
+		if b != nil {
+			b.Stubs = append(b.Stubs, up)
+		}
 		return fastforward.VerifNewForward(1, []fastforward.VerifUpstream{{Tag: "u", U: up}}), nil
+	}
+	if d.Kind == "rendezvous" {
+		b.Meet = NewRendezvous()
+		return b.Meet, nil
 	}
 	return &drop_resp.DropResp{}, nil
 }
@@ -278,7 +293,7 @@ func buildX(d XDesc, rec *Recorder, scripts [][]Template) (any, error) {
 func buildW(d WDesc) (any, func(), error) {
 	switch d.Kind {
 	case "cache":
-		c := cache.NewCache(&cache.Args{Size: 1024}, cache.Opts{})
+		c := cache.NewCache(&cache.Args{Size: 1024, LazyCacheTTL: d.Lazy}, cache.Opts{})
 		return c, func() { _ = c.Close() }, nil
 	case "redirect":
 		var rules []string
@@ -362,7 +377,7 @@ func Build(r *hx.RNG, xs []XDesc, ws []WDesc, scripts [][]Template, ss []TSeq, r
 		if d.Kind == "fallback" {
 			continue // built when the sequence that uses it is built: its sub-sequences exist by then
 		}
-		p, err := buildX(d, rec, scripts)
+		p, err := buildX(b, d, rec, scripts)
 		if err != nil {
 			return nil, fmt.Errorf("x%d: %w", i, err)
 		}
@@ -375,6 +390,9 @@ func Build(r *hx.RNG, xs []XDesc, ws []WDesc, scripts [][]Template, ss []TSeq, r
 		}
 		if cl != nil {
 			b.closers = append(b.closers, cl)
+		}
+		if c, ok := p.(*cache.Cache); ok {
+			b.Caches = append(b.Caches, c)
 		}
 		if p != nil {
 			ps["w"+strconv.Itoa(i)] = p
